@@ -137,6 +137,10 @@ def check(run):
         its = gen_instrs(rng, k, consecutive=rng.random() < 0.85)
         toks = gen_schedule(rng, k)
         cases.append(dict(req=to_req(its, toks), coq=to_coq(its, toks), cat="finish-untaken" if toks[-2:] != ["T", "F"] else "collect", its=its, toks=toks))
+    for k in ((1500, 4000) if run.tier != "thorough" else (1500, 4000, 20000)):      # long streams
+        its = gen_instrs(rng, k, consecutive=True)
+        toks = gen_schedule(rng, k)
+        cases.append(dict(req=to_req(its, toks), coq=to_coq(its, toks), cat="long", its=its, toks=toks))
     dis = common.correspond(run, cases, IMPORTS, canon=canon, tag="c16")
     run.corr["rule"] = ("random instruction sequences over {jumpdest, jump/jumpi, halting incl. undefined opcodes, pushes, ordinary} x random schedules of push/push_all(k)/take/finish; "
                         "distinct = distinct (sequence, schedule) pairs")
